@@ -178,6 +178,18 @@ func genCodec(t *Tracer, m *Meta, tier string, seed int64) {
 	}
 	// String16: every length class
 	lens := []int{0, 1, 2, 3, 127, 128, 255, 256, 257, 1000, 32767, 32768, 65534, 65535}
+	// the two length bytes at their own boundaries, in every combination
+	grid := []int{}
+	for _, hi := range []int{0, 1, 2, 3, 0x7f, 0x80, 0xfe, 0xff} {
+		for _, lo := range []int{0, 1, 0x7f, 0x80, 0xfe, 0xff} {
+			grid = append(grid, hi<<8|lo)
+		}
+	}
+	if quick {
+		r.Shuffle(len(grid), func(i, j int) { grid[i], grid[j] = grid[j], grid[i] })
+		grid = grid[:14]
+	}
+	lens = append(lens, grid...)
 	items := []interface{}{}
 	nrand := 200
 	if !quick {
